@@ -62,6 +62,15 @@ M('C01', 'batch-weights-constant', STM + 'signature_scheme/bls_multi_signature/s
   '            let mut hasher = hashed_batch.clone();\n            hasher.update(index.to_be_bytes());', '            let mut hasher = Blake2b::<U16>::new();\n            hasher.update(index.to_be_bytes());', ['batch:weights:transcript'], 'the weights no longer depend on the batch: predictable, offsets can be chosen to cancel')
 M('C01', 'decoded-signature-not-group-checked', STM + 'signature_scheme/bls_multi_signature/signature.rs',
   'match BlstSig::sig_validate(bytes, true) {', 'match BlstSig::from_bytes(bytes) {', ['subgroup check'], 'on-curve only: sigma + small-order point verifies in the aggregate path with other bytes')
+M('C13', 'rollback-before-first-keeps-everything', 'internal/mithril-persistence/src/database/repository/cardano_transaction_repository.rs',
+  '            None => self.remove_all_blocks_transactions_and_block_ranges().await,', '            None => Ok(()),', ['every Ok return has passed a removal'], 'F16 comes back')
+M('C13', 'remove-all-forgets-range-roots', 'internal/mithril-persistence/src/database/repository/cardano_transaction_repository.rs',
+  """        connection.fetch_first(DeleteCardanoBlockAndTransactionQuery::all())?;
+        connection.fetch_first(
+            DeleteBlockRangeRootQuery::contains_or_above_block_number_threshold(BlockNumber(0))?,
+        )?;
+""", """        connection.fetch_first(DeleteCardanoBlockAndTransactionQuery::all())?;
+""", ['rollback:remove-all'], 'the remove-everything arm leaves the block range roots of the abandoned fork')
 
 # ---------------------------------------------------------------- C02
 CLERK = STM + 'proof_system/concatenation/clerk.rs'
